@@ -426,6 +426,13 @@ func (a *absFn) key(v ssa.Value) string {
 	case *ssa.Extract:
 		k = a.key(x.Tuple) + "#" + fmt.Sprint(x.Index)
 	case *ssa.UnOp, *ssa.Field, *ssa.FieldAddr, *ssa.Index, *ssa.IndexAddr, *ssa.Lookup, *ssa.BinOp, *ssa.Convert, *ssa.ChangeType, *ssa.Slice, *ssa.TypeAssert:
+		if u, ok := v.(*ssa.UnOp); ok && u.Op == token.MUL {
+			if eq := equivLoad(u); eq != u {
+				k = a.key(eq)
+				a.keyMemo[v] = k
+				return k
+			}
+		}
 		k = a.t.T(v)
 		if strings.Contains(k, "phi{") || strings.Contains(k, "loop") || strings.Contains(k, "…") || strings.Contains(k, "dyn(") || strings.Contains(k, "iface:") || strings.Contains(k, "@u") {
 			// not a pure expression of stable values: unique identity
@@ -480,6 +487,12 @@ func (a *absFn) lenForm(s ssa.Value, depth int) LinForm {
 		return a.lenForm(x.X, depth+1)
 	case *ssa.MakeSlice:
 		return a.decompose(x.Len, depth+1)
+	case *ssa.UnOp:
+		if x.Op == token.MUL {
+			if v := forwardedStore(x); v != nil {
+				return a.lenForm(v, depth+1)
+			}
+		}
 	case *ssa.Const:
 		if x.Value != nil && x.Value.Kind() == constant.String {
 			return lfConst(int64(len(constant.StringVal(x.Value))))
